@@ -2,6 +2,7 @@
    identifiers are well formed and distinct for distinct draws. *)
 From Coq Require Import String ZArith List Bool Lia ZifyBool.
 From HD Require Import Base.Val C20_Model.
+From HD Require Base.ListZ.
 Import ListNotations.
 Open Scope Z_scope.
 Ltac Zify.zify_post_hook ::= Z.to_euclidean_division_equations.
@@ -238,4 +239,293 @@ Proof.
     split; [discriminate|]. split.
     + cbn [forallb] in *. rewrite H1. exact H3.
     + intros d' r' E _. inversion E; subst. lia.
+Qed.
+
+(* ------------------------------------------------ look-up table storage *)
+Lemma zlen_app (a b : str) : zlen (a ++ b) = zlen a + zlen b.
+Proof. unfold zlen. rewrite app_length. lia. Qed.
+
+Lemma zlen_le16 data : zlen (flat_map le16 data) = 2 * zlen data.
+Proof.
+  induction data as [|v r IH]; [reflexivity|].
+  cbn [flat_map]. rewrite zlen_app, IH. unfold zlen, le16. cbn [length]. lia.
+Qed.
+
+Lemma palette_store_len bits data : bits = 8 \/ bits = 16 ->
+  zlen (palette_store bits data) = if bits =? 8 then zlen data + zlen data mod 2 else 2 * zlen data.
+Proof.
+  intros [-> | ->]; unfold palette_store, lut_bytes, lut_pad; cbn [Z.eqb Pos.eqb andb]; rewrite zlen_app.
+  - destruct (Z.odd (zlen data)) eqn:E.
+    + rewrite Zodd_mod in E. apply Zeq_bool_eq in E. change (zlen [0]) with 1. lia.
+    + assert (zlen data mod 2 = 0).
+      { rewrite Zodd_mod in E. apply Zeq_bool_neq in E.
+        pose proof (Z.mod_pos_bound (zlen data) 2). lia. }
+      change (zlen []) with 0. lia.
+  - rewrite zlen_le16. change (zlen []) with 0. lia.
+Qed.
+
+Lemma palette_store_even bits data : bits = 8 \/ bits = 16 ->
+  Z.even (zlen (palette_store bits data)) = true.
+Proof.
+  intros Hb. rewrite (palette_store_len bits data Hb). destruct Hb as [-> | ->]; cbn [Z.eqb Pos.eqb].
+  - rewrite Zeven_mod. apply Zeq_is_eq_bool.
+    pose proof (Z.mod_pos_bound (zlen data) 2). lia.
+  - rewrite Z.even_mul. reflexivity.
+Qed.
+
+Lemma words16_le16 data : (forall v, In v data -> 0 <= v < 65536) -> words16 (flat_map le16 data) = data.
+Proof.
+  induction data as [|v r IH]; intros H; [reflexivity|].
+  cbn [flat_map le16 app words16]. rewrite IH by (intros; apply H; now right).
+  f_equal. pose proof (H v (or_introl eq_refl)). lia.
+Qed.
+
+Lemma palette_read_store bits data : bits = 8 \/ bits = 16 ->
+  (forall v, In v data -> 0 <= v < 2 ^ bits) ->
+  palette_read bits (zlen data) (palette_store bits data) = data.
+Proof.
+  intros [-> | ->] Hr; unfold palette_read, palette_store, lut_bytes, lut_pad; cbn [Z.eqb Pos.eqb andb].
+  - destruct (Z.odd (zlen data)) eqn:E.
+    + rewrite zlen_app. change (zlen [0]) with 1. rewrite Z.eqb_refl. apply removelast_last.
+    + cbn [andb]. apply app_nil_r.
+  - rewrite app_nil_r. apply words16_le16. intros v Hv. apply Hr in Hv. change (2 ^ 16) with 65536 in Hv. exact Hv.
+Qed.
+
+Lemma palette_lut_spec bits first data :
+  (palette_lut bits first data = Err "ValueError" <-> palette_ok bits first data = false) /\
+  (forall d s, palette_lut bits first data = Ok (d, s) ->
+     palette_ok bits first data = true /\ d = lut_descriptor bits first data /\ s = palette_store bits data).
+Proof.
+  unfold palette_lut. destruct (palette_ok bits first data); split.
+  - split; discriminate.
+  - intros d s E. inversion E. auto.
+  - split; reflexivity.
+  - intros d s E. discriminate.
+Qed.
+
+Lemma palette_ok_bits bits first data : palette_ok bits first data = true -> bits = 8 \/ bits = 16.
+Proof. unfold palette_ok. intros H. lia. Qed.
+
+(* what the transformation holds is what the three tables hold, each of even length *)
+Lemma palette_tf_spec bits first r g b d ss : palette_tf bits first r g b = Ok (d, ss) ->
+  ss = [palette_store bits r; palette_store bits g; palette_store bits b] /\
+  d = lut_descriptor bits first r /\ zlen r = zlen g /\ zlen g = zlen b /\
+  (forall s, In s ss -> Z.even (zlen s) = true).
+Proof.
+  unfold palette_tf, palette_lut.
+  destruct (palette_ok bits first r) eqn:Er; cbn [bind]; [|discriminate].
+  destruct (palette_ok bits first g) eqn:Eg; cbn [bind]; [|discriminate].
+  destruct (palette_ok bits first b) eqn:Eb; cbn [bind]; [|discriminate].
+  destruct ((zlen r =? zlen g) && (zlen g =? zlen b)) eqn:El; [|discriminate].
+  cbn [fst snd]. intros E. inversion E; subst. repeat split; try lia.
+  pose proof (palette_ok_bits _ _ _ Er) as Hb.
+  intros s [<- | [<- | [<- | []]]]; apply palette_store_even; exact Hb.
+Qed.
+
+(* without the pad byte (what [lut_data.tobytes()] alone gives) an 8-bit table
+   with an odd number of entries is an odd-length value *)
+Lemma unpadded_store_refuted : exists data, Z.even (zlen (lut_bytes 8 data)) = false.
+Proof. exists [1; 2; 3]. reflexivity. Qed.
+
+Lemma plain_lut_even_iff bits first data d s : plain_lut bits first data = Ok (d, s) ->
+  (Z.even (zlen s) = true <-> bits = 16 \/ Z.even (zlen data) = true).
+Proof.
+  unfold plain_lut. destruct (plain_ok bits first data) eqn:E; [|discriminate].
+  intros H. inversion H; subst. assert (Hb : bits = 8 \/ bits = 16) by (unfold plain_ok in E; lia).
+  destruct Hb as [-> | ->]; unfold lut_bytes; cbn [Z.eqb Pos.eqb].
+  - split; [auto|]. intros [? | ?]; [discriminate|assumption].
+  - rewrite zlen_le16, Z.even_mul. split; auto.
+Qed.
+
+(* ------------------------------------- identifiers of one multi-object call *)
+Lemma ascending_nil_or : forall l, ascending l = true \/ ascending l = false.
+Proof. intros l. destruct (ascending l); auto. Qed.
+
+Lemma pyramid_outputs_ge2 a b f n : 0 <= a -> 0 <= b -> pyramid_outputs a b f = Ok n -> 2 <= n.
+Proof.
+  intros Ha Hb. unfold pyramid_outputs.
+  destruct (a =? 0) eqn:E1; [discriminate|]. destruct (b =? 0) eqn:E2; [discriminate|].
+  destruct ((a =? 1) && (b =? 1)) eqn:E3.
+  - destruct f as [fs|]; [|discriminate].
+    destruct (zlen fs <? 1) eqn:E4; [discriminate|].
+    destruct (existsb (fun f => f <=? 4) fs); [discriminate|].
+    destruct (negb (ascending fs)); [discriminate|]. intros H. inversion H. lia.
+  - destruct f; [discriminate|].
+    destruct ((1 <? a) && (1 <? b)) eqn:E4.
+    + destruct (a =? b); [|discriminate]. intros H. inversion H. lia.
+    + intros H. inversion H. lia.
+Qed.
+
+Lemma str_eqb_eq : forall a b, str_eqb a b = true <-> a = b.
+Proof.
+  induction a as [|x a IH]; destruct b as [|y b]; cbn [str_eqb]; split; intros H; try discriminate; try reflexivity.
+  - apply andb_true_iff in H. destruct H as [H1 H2]. apply Z.eqb_eq in H1. apply IH in H2. congruence.
+  - inversion H; subst. rewrite Z.eqb_refl. cbn. apply IH. reflexivity.
+Qed.
+
+Lemma first_index_notin : forall pre x post, ~ In x pre ->
+  first_index (pre ++ x :: post) x = Z.of_nat (length pre).
+Proof.
+  induction pre as [|y pre IH]; intros x post Hn; cbn [app first_index length].
+  - assert (E : str_eqb x x = true) by (apply str_eqb_eq; reflexivity). rewrite E. reflexivity.
+  - destruct (str_eqb y x) eqn:E.
+    + apply str_eqb_eq in E. subst. exfalso. apply Hn. now left.
+    + rewrite IH by (intros Hi; apply Hn; now right). lia.
+Qed.
+
+Lemma first_index_in : forall pre x post, In x pre ->
+  0 <= first_index (pre ++ post) x < Z.of_nat (length pre) /\
+  first_index (pre ++ post) x = first_index pre x.
+Proof.
+  induction pre as [|y pre IH]; intros x post Hi; [contradiction|].
+  cbn [app first_index length]. destruct (str_eqb y x) eqn:E; [lia|].
+  destruct Hi as [-> | Hi].
+  - assert (E' : str_eqb x x = true) by (apply str_eqb_eq; reflexivity). congruence.
+  - destruct (IH x post Hi) as [H1 H2]. lia.
+Qed.
+
+Lemma canon_from : forall post pre, NoDup (pre ++ post) ->
+  map (first_index (pre ++ post)) post = map Z.of_nat (seq (length pre) (length post)).
+Proof.
+  induction post as [|x post IH]; intros pre Hn; [reflexivity|].
+  cbn [map length seq]. f_equal.
+  - apply first_index_notin. apply NoDup_remove_2 in Hn. intros Hi. apply Hn. apply in_or_app. now left.
+  - replace (pre ++ x :: post) with ((pre ++ [x]) ++ post) in * by (rewrite <- app_assoc; reflexivity).
+    rewrite (IH (pre ++ [x]) Hn). rewrite app_length. cbn [length]. replace (length pre + 1)%nat with (S (length pre)) by lia.
+    reflexivity.
+Qed.
+
+Lemma canon_nodup l : NoDup l -> canon l = iota (length l).
+Proof. intros H. exact (canon_from l [] H). Qed.
+
+Lemma canon_snoc l x : canon (l ++ [x]) = canon l ++ [first_index (l ++ [x]) x].
+Proof.
+  unfold canon. rewrite map_app. cbn [map]. f_equal.
+  apply map_ext_in. intros y Hy. apply (first_index_in l y [x] Hy).
+Qed.
+
+Lemma iota_S n : iota (S n) = iota n ++ [Z.of_nat n].
+Proof. unfold iota. rewrite seq_S, map_app. reflexivity. Qed.
+
+Lemma canon_iota_nodup : forall l, canon l = iota (length l) -> NoDup l.
+Proof.
+  induction l as [|x l IH] using rev_ind; intros H; [constructor|].
+  rewrite canon_snoc, app_length in H. cbn [length] in H.
+  replace (length l + 1)%nat with (S (length l)) in H by lia. rewrite iota_S in H.
+  apply app_inj_tail in H. destruct H as [H1 H2].
+  assert (Hx : ~ In x l).
+  { intros Hi. pose proof (first_index_in l x [x] Hi). lia. }
+  specialize (IH H1). clear H1 H2.
+  apply (NoDup_Add (a := x) (l := l)).
+  - rewrite <- (app_nil_r l) at 1. apply Add_app.
+  - split; assumption.
+Qed.
+
+Lemma NoDup_firstn {A} : forall (k : nat) (l : list A), NoDup l -> NoDup (firstn k l).
+Proof.
+  induction k as [|k IH]; intros [|a l] H; cbn [firstn]; try constructor.
+  - inversion H; subst. intros Hi. apply H2. clear -Hi.
+    revert k Hi. induction l as [|b l IHl]; intros [|k] Hi; cbn [firstn] in Hi; try contradiction.
+    destruct Hi as [-> | Hi]; [now left | right; eapply IHl; exact Hi].
+  - inversion H; subst. apply IH. assumption.
+Qed.
+
+Lemma In_firstn {A} : forall (k : nat) (l : list A) x, In x (firstn k l) -> In x l.
+Proof.
+  induction k as [|k IH]; intros [|a l] x H; cbn [firstn] in H; try contradiction.
+  destruct H as [-> | H]; [now left | right; apply IH; exact H].
+Qed.
+
+(* fresh identifiers: one per level, pairwise distinct, each a valid UID *)
+Lemma alloc_ids_fresh n draws : NoDup draws -> (forall d, In d draws -> 0 <= d < 10 ^ 35) ->
+  0 <= n <= Z.of_nat (length draws) ->
+  exists l, alloc_ids n None draws = Ok l /\ Z.of_nat (length l) = n /\ NoDup l /\
+            (forall u, In u l -> uid_valid u = true) /\ canon l = iota (length l).
+Proof.
+  intros Hnd Hr Hn. unfold alloc_ids. eexists. split; [reflexivity|].
+  assert (Hnd' : NoDup (map (uid_of prefix_hd) (firstn (Z.to_nat n) draws))).
+  { apply ListZ.NoDup_map_inj.
+    - intros x y Hx Hy E. apply In_firstn in Hx. apply In_firstn in Hy.
+      apply (uid_injective prefix_hd); [apply Hr in Hx; lia | apply Hr in Hy; lia | exact E].
+    - apply NoDup_firstn. exact Hnd. }
+  split; [|split; [exact Hnd'|split]].
+  - rewrite map_length, firstn_length. lia.
+  - intros u Hu. apply in_map_iff in Hu. destruct Hu as (d & <- & Hd). apply In_firstn in Hd.
+    apply uid_hd_wellformed. apply Hr. exact Hd.
+  - apply canon_nodup. exact Hnd'.
+Qed.
+
+(* identifiers passed by the caller are honoured or refused on their number *)
+Lemma alloc_ids_given n l draws :
+  (alloc_ids n (Some l) draws = Ok l <-> Z.of_nat (length l) = n) /\
+  (alloc_ids n (Some l) draws = Err "ValueError" <-> Z.of_nat (length l) <> n).
+Proof.
+  unfold alloc_ids. destruct (Z.of_nat (length l) =? n) eqn:E; split; split; intros H;
+    try reflexivity; try discriminate; try lia.
+Qed.
+
+(* the hoisted form [UID()] * n (one draw repeated) is told apart by the observation *)
+Lemma repeated_id_refuted : exists u, canon [u; u] <> iota 2.
+Proof. exists (uid_of prefix_hd 7). vm_compute. discriminate. Qed.
+
+(* ------------------------------------------------ native frames (pm) *)
+Definition be_val (it : list Z) : Z := fold_left (fun acc b => 256 * acc + b) it 0.
+
+Lemma le_val_app a b : le_val (a ++ b) = le_val a + 256 ^ Z.of_nat (length a) * le_val b.
+Proof.
+  induction a as [|x a IH]; [cbn [app le_val length]; change (Z.of_nat 0) with 0; rewrite Z.pow_0_r; ring|].
+  cbn [app le_val length]. rewrite IH, Nat2Z.inj_succ, Z.pow_succ_r by lia. ring.
+Qed.
+
+Lemma fold_be_acc : forall it acc,
+  fold_left (fun acc b => 256 * acc + b) it acc = 256 ^ Z.of_nat (length it) * acc + le_val (rev it).
+Proof.
+  induction it as [|x it IH]; intros acc; [cbn [fold_left rev length le_val]; change (Z.of_nat 0) with 0; rewrite Z.pow_0_r; ring|].
+  cbn [fold_left rev length]. rewrite IH, le_val_app, rev_length, Nat2Z.inj_succ, Z.pow_succ_r by lia.
+  cbn [le_val]. ring.
+Qed.
+
+(* the value held by a stored (little-endian) element is the value the array
+   element holds in memory, for either byte order of the array *)
+Lemma item_le_value be it : le_val (item_le be it) = if be then be_val it else le_val it.
+Proof.
+  destruct be; cbn [item_le]; [|reflexivity].
+  unfold be_val. rewrite fold_be_acc. lia.
+Qed.
+
+Lemma item_le_length be it : length (item_le be it) = length it.
+Proof. destruct be; cbn [item_le]; [apply rev_length|reflexivity]. Qed.
+
+(* a little-endian array with one mapping is stored as its own memory image -
+   the case in which the serialised bytes may alias the caller's buffer *)
+Lemma pm_native_le_single arr :
+  (forall plane px, In plane arr -> In px plane -> exists it, px = [it]) ->
+  pm_native false 1 arr = concat (map (fun plane => concat (map (fun px => concat px) plane)) arr).
+Proof.
+  intros H. unfold pm_native. rewrite flat_map_concat_map. f_equal.
+  apply map_ext_in. intros plane Hp. cbn [seq flat_map]. rewrite app_nil_r.
+  unfold pm_frame. rewrite flat_map_concat_map. f_equal.
+  apply map_ext_in. intros px Hpx. destruct (H plane px Hp Hpx) as [it ->].
+  cbn [nth item_le concat]. rewrite app_nil_r. reflexivity.
+Qed.
+
+Lemma flat_map_length_const {A} (f : A -> list Z) k : forall l, (forall x, In x l -> length (f x) = k) ->
+  length (flat_map f l) = (length l * k)%nat.
+Proof.
+  induction l as [|x l IH]; intros H; [reflexivity|].
+  cbn [flat_map length]. rewrite app_length, IH, H by (try (intros; apply H; now right); now left). lia.
+Qed.
+
+(* P planes of p pixels with m mappings of k bytes give P*m*p*k bytes *)
+Lemma pm_native_length be m p k arr :
+  (forall plane, In plane arr -> length plane = p /\
+     forall px, In px plane -> forall j, (j < m)%nat -> length (nth j px []) = k) ->
+  length (pm_native be m arr) = (length arr * (m * (p * k)))%nat.
+Proof.
+  intros H. unfold pm_native. apply flat_map_length_const. intros plane Hp.
+  destruct (H plane Hp) as [Hl Hx].
+  rewrite (flat_map_length_const _ (p * k)%nat); [rewrite seq_length; reflexivity|].
+  intros j Hj. apply in_seq in Hj. unfold pm_frame.
+  rewrite (flat_map_length_const _ k); [rewrite Hl; reflexivity|].
+  intros px Hpx. rewrite item_le_length. apply Hx; [exact Hpx|lia].
 Qed.
